@@ -12,7 +12,7 @@ from psvc.contract import Contract, Clause, register, T, And, Or, Not, Implies, 
 from psvc import spec
 from psvc.timeabs import span, instant, us_of
 from contracts.task import make_task
-from contracts.task_constraint import assume_valid_task
+from contracts.task_constraint import assume_valid_task, dated_kw
 from contracts.resource import decode
 
 
@@ -48,6 +48,9 @@ class BuildSolution(Contract):
                         if hz is None and (req not in ("none", "static") or cal != "none"):
                             continue
                         out.append(dict(ts=ts, req=req, cal=cal, horizon=hz))
+        # tasks that declare a release date and a (soft / hard) due date
+        for req in ("static", "delayed", "select", "cumulative+worker"):
+            out.append(dict(ts=("Fm", "Vo"), req=req, cal="none", horizon="int", dated="mixed"))
         return out
 
     def scenario(self, ps, P, case):
@@ -76,7 +79,7 @@ class BuildSolution(Contract):
         for i, code in enumerate(case["ts"]):
             cls, opt = decode(code)
             assume_valid_task(P, cls, f"t{i+1}")
-            t = make_task(ps, P, cls, f"t{i+1}", optional=opt)
+            t = make_task(ps, P, cls, f"t{i+1}", optional=opt, **dated_kw(case, i))
             if case["req"] == "static":
                 t.add_required_resource(res)
             elif case["req"] == "delayed":
